@@ -150,6 +150,11 @@ func (s *streamWS) RecvMsg(m interface{}) error {
 		if err := protojson.Unmarshal(b, msg); err != nil {
 			return err
 		}
+	} else if s.recvN > 1 {
+		// No body is mapped: the request is the single message built from
+		// the URL, as for an HTTP request without body. Without this every
+		// call succeeds and a handler receiving until io.EOF never ends.
+		return io.EOF
 	}
 
 	if s.recvN == 1 {
